@@ -5,7 +5,7 @@
                 1 = model and implementation differ, property still holds on the observation
                 2 = they differ and the property fails on the implementation's observation
                 3 = they agree and the property fails (model mirrors a defect) *)
-From Verif Require Export Lib.Bytes C15.Model C15.PointModel.
+From Verif Require Export Lib.Bytes C15.Model C15.PointModel C15.PairModel.
 From VerifGen Require Import Consts.
 Open Scope N_scope.
 
@@ -96,7 +96,7 @@ Inductive case :=
 (* points through the real IteratorEncoder (stats sn/pn, optional trace frame): encoder
    class, bytes written; real NewReaderIterator(...).Next until nil/error: class (0 clean
    end, 1 error, 2 panic) and the points returned *)
-| CStream (t : ptype) (ps : list point) (sn pn : N) (trace : bytes) (enc_cls : N) (real_bytes : bytes)
+| CStream (t : ptype) (ps : list point) (sn pn : N) (trace : bytes) (ticking : bool) (enc_cls : N) (real_bytes : bytes)
           (cls : N) (dps : list point)
 (* arbitrary bytes through the real NewReaderIterator *)
 | CRaw (t : ptype) (s : bytes) (cls : N) (dps : list point)
@@ -104,7 +104,10 @@ Inductive case :=
    there is no model of these messages) *)
 | CRpc (name : bytes) (ok : bool)
 (* influxql.DataType codes of the working tree: Unknown Float Integer String Boolean Unsigned *)
-| CPtConsts (vals : list N).
+| CPtConsts (vals : list N)
+(* a sequence of calls of the real ShardWriter / MetaExecutor clients over their real
+   connection pool against a scripted node (late, error, undecodable, missing replies) *)
+| CPair (calls : list pcall).
 
 Definition model_reply_types (evs : list event) : list N :=
   flat_map (fun e => match e with EReply t _ => [t] | _ => [] end) evs.
@@ -115,6 +118,24 @@ Definition last_is_ret (s : bytes) (evs : list event) : bool :=
   | EReply t _ :: _ => match lookup_dispatch (t - 1) with Some DProcRet => true | Some DNoLVRet => true | _ => false end
   | ERaw :: _ => true
   | _ => false
+  end.
+
+(* remove every frame whose body is [target]; an ill-formed tail is kept as it is *)
+Fixpoint drop_frames (target : bytes) (fuel : nat) (s : bytes) : bytes :=
+  match fuel with
+  | O => s
+  | S f =>
+    match take 4 s with
+    | None => s
+    | Some (hdr, rest) =>
+      if N.of_nat (length rest) <? be_dec hdr then s else
+      match take (N.to_nat (be_dec hdr)) rest with
+      | None => s
+      | Some (body, rest') =>
+          if bytes_eqb body target then drop_frames target f rest'
+          else hdr ++ body ++ drop_frames target f rest'
+      end
+    end
   end.
 
 Definition end_class (e : stream_end) : N := match e with SEof => 0 | SErr => 1 | SCrash => 2 end.
@@ -154,8 +175,13 @@ Definition check_case (c : case) : N :=
         end in
       let spec_ok := N.eqb cls 0 && point_eqb d p && list_eqb kv_eqb dkvs kvs in
       code (agree_enc && agree_dec) spec_ok
-  | CStream t ps sn pn trace enc_cls rb cls dps =>
-      let agree_enc := N.eqb enc_cls 0 && bytes_eqb (encode_items (encode_iterator ps sn pn trace)) rb in
+  | CStream t ps sn pn trace ticking enc_cls rb cls dps =>
+      (* ticking: a slow source and a 1 ms stats interval put an unpredictable number of
+         stats frames between the points: compare after dropping the stats frames *)
+      let strip := drop_frames (encode_stats_body sn pn) (S (length rb)) in
+      let agree_enc := N.eqb enc_cls 0 &&
+        (if ticking then bytes_eqb (strip (encode_items (encode_iterator ps sn pn trace))) (strip rb)
+         else bytes_eqb (encode_items (encode_iterator ps sn pn trace)) rb) in
       let '(mps, e) := model_read t rb in
       let agree_dec := N.eqb cls (end_class e) && list_eqb point_eqb mps dps in
       let spec_ok := N.eqb enc_cls 0 && N.eqb cls 0 && list_eqb point_eqb dps ps in
@@ -164,6 +190,20 @@ Definition check_case (c : case) : N :=
       let '(mps, e) := model_read t s in
       code (N.eqb cls (end_class e) && list_eqb point_eqb mps dps) (negb (N.eqb cls 2))
   | CRpc _ ok => code true ok
+  | CPair calls =>
+      (* model: FIFO connections; what each call that read a frame must have read, and
+         whether the client kept the discipline "never reuse a connection with an unread reply" *)
+      let '(ds, disc) := run0 calls in
+      let agree_frames :=
+        (fix chk (cs : list pcall) (ds : list (option reply)) : bool :=
+           match cs, ds with
+           | c :: cs', d :: ds' =>
+               (if got_frame c then match d with Some r => matches c r | None => false end else true)
+               && chk cs' ds'
+           | [], [] => true
+           | _, _ => false
+           end) calls ds in
+      code (agree_frames && disc) (forallb call_ok calls)
   | CPtConsts vals =>
       code (list_eqb N.eqb vals [dt_unknown; dt_float; dt_integer; dt_string; dt_boolean; dt_unsigned]) true
   end.
